@@ -149,7 +149,13 @@ def run_unit(arg):
         out["external_used"] = sorted(ex.external_used)
         out["ufs_used"] = sorted(ex.ufs_used)
         out["inlined"] = sorted(ex.inlined)
+        # a unit BORROWED by this property for some kinds of obligations only (api.BORROWED[prop][target] = kinds, set by a
+        # cone extension): the other obligations of the unit are proved under its owner's property, where every clause
+        # (and every loop invariant assumed here) is discharged -- so restricting the kinds never weakens what is assumed
+        kinds = getattr(api, "BORROWED", {}).get(prop, {}).get(key) if kind == "contract" else None
         for ob in ex.obligations:
+            if kinds is not None and not any(ob.kind == k or ob.kind.startswith(k + ".") for k in kinds):
+                continue
             discharge(ob, timeout_ms=timeout, cross_check=(tier == "thorough"))
             d = {"name": ob.name, "kind": ob.kind, "verdict": ob.verdict, "solver": ob.solver, "ms": round(ob.ms, 2),
                  "note": ob.note, "carries": ob.carries_property, "lineno": ob.lineno}
